@@ -233,6 +233,11 @@ def c08Step (st : C08St) (x : Nat × List String × List String) : C08St :=
   | [_, "net_hold", a, b] => doHold st a b false
   | ["ctl", "release", a, b] => doRelease st a b
   | [_, "net_release", a, b] => doRelease st a b
+  | ["ctl", "deliverall", a, b] =>
+    let k := pairKey (hostTok a) (hostTok b)
+    if !st.linksFresh then st else
+    let ids := (st.lastLinks.filter (onPair k)).map (·.2.2)
+    { st with heldMsgs := st.heldMsgs.filter (fun id => !ids.contains id), leaving := st.leaving ++ ids }
   | ["ctl", "deliver", a, b, i] =>
     let k := pairKey (hostTok a) (hostTok b)
     if !st.linksFresh then st else
